@@ -144,12 +144,25 @@ func c08MultiScan(pattern string) *h.Scenario {
 	}
 }
 
-func C08Scenarios(tier string) []*h.Scenario {
+func C08Scenarios(tier string) []*h.Scenario { return c08Scenarios(tier, 0, 1) }
+
+// c08Scenarios builds the scenarios whose index falls to the given shard (hundreds of thousands of
+// tiny scenarios: each worker only materialises its own).
+func c08Scenarios(tier string, shard, shards int) []*h.Scenario {
 	maxN := 4
 	if tier == "thorough" {
 		maxN = 5
 	}
-	out := []*h.Scenario{c08MultiScan("distinct"), c08MultiScan("ties")}
+	idx := -1
+	var out []*h.Scenario
+	add := func(mk func() *h.Scenario) {
+		idx++
+		if idx%shards == shard {
+			out = append(out, mk())
+		}
+	}
+	add(func() *h.Scenario { return c08MultiScan("distinct") })
+	add(func() *h.Scenario { return c08MultiScan("ties") })
 	for n := 1; n <= maxN; n++ {
 		total := 1
 		for i := 0; i < n; i++ {
@@ -164,17 +177,20 @@ func C08Scenarios(tier string) []*h.Scenario {
 			}
 			for _, pm := range perms(n) {
 				for k := 0; k <= n; k++ {
-					out = append(out, c08Build(c08Case{Times: times, Perm: pm, K: k}))
+					times, pm, k := times, pm, k
+					add(func() *h.Scenario { return c08Build(c08Case{Times: times, Perm: pm, K: k}) })
 					if k == 0 {
 						continue
 					}
-					if n <= 3 || tier == "thorough" {
-						out = append(out, c08Build(c08Case{Times: times, Perm: pm, K: k, Min: 1}), c08Build(c08Case{Times: times, Perm: pm, K: k, Annot: true}))
+					switch {
+					case n <= 3 || (tier == "thorough" && n == 4):
+						add(func() *h.Scenario { return c08Build(c08Case{Times: times, Perm: pm, K: k, Min: 1}) })
+						add(func() *h.Scenario { return c08Build(c08Case{Times: times, Perm: pm, K: k, Annot: true}) })
 						if n >= 3 {
-							out = append(out, c08Build(c08Case{Times: times, Perm: pm, K: k, Min: 2, Annot: true}))
+							add(func() *h.Scenario { return c08Build(c08Case{Times: times, Perm: pm, K: k, Min: 2, Annot: true}) })
 						}
-					} else if k >= 2 {
-						out = append(out, c08Build(c08Case{Times: times, Perm: pm, K: k, Min: 1, Annot: true}))
+					case k >= 2 && n == 4:
+						add(func() *h.Scenario { return c08Build(c08Case{Times: times, Perm: pm, K: k, Min: 1, Annot: true}) })
 					}
 				}
 			}
@@ -189,8 +205,9 @@ func init() {
 		Level: "model_checking",
 		Rule: "every assignment of creation times from {zero value, t1, t2, t3} to 1..4 (5 thorough) untainted nodes x every list order x every taint count 0..n x min_nodes 0..2 (a binding clamp) x the first listed node carrying the no-delete annotation or not, each explored with no fault, with a failure at every single get / update position of the taint loop, and with the API rejecting every call on one node; six-scan histories (one taint per scan) with a node rejected for up to three whole scans; " +
 			"non-trivial = scans that tainted at least one node; distinct = (times, order, count, fault position) outcome traces",
-		Scenarios:       C08Scenarios,
-		ShardByScenario: true,
+		Scenarios:        C08Scenarios,
+		ScenariosSharded: c08Scenarios,
+		ShardByScenario:  true,
 		Monitors:        func() []h.Monitor { return []h.Monitor{OldestFirst{}, NewDecisions()} },
 		Bound:           func(tier string) int { return 1 },
 		Nontrivial: func(hh *h.Hist) []string {
